@@ -56,6 +56,8 @@ def to_pymbolic(t):
     if k == "sub":
         idx = tuple(to_pymbolic(c) for c in t[2])
         return p.Subscript(to_pymbolic(t[1]), idx[0] if len(idx) == 1 else idx)
+    if k == "lookup":
+        return p.Lookup(to_pymbolic(t[1]), t[2])
     if k == "call":
         args = tuple(to_pymbolic(c) for c in t[2])
         kw = t[3] if len(t) > 3 else {}
@@ -106,6 +108,8 @@ def from_pymbolic(e):
     if isinstance(e, p.Subscript):
         idx = e.index if isinstance(e.index, tuple) else (e.index,)
         return ["sub", from_pymbolic(e.aggregate), [from_pymbolic(i) for i in idx]]
+    if isinstance(e, p.Lookup):
+        return ["lookup", from_pymbolic(e.aggregate), e.name]
     if isinstance(e, p.CallWithKwargs):
         return ["call", _fname(e.function), [from_pymbolic(a) for a in e.parameters],
                 {n: from_pymbolic(v) for n, v in sorted(e.kw_parameters.items())}]
@@ -135,7 +139,7 @@ def children(t):
         return [t[1], t[2]]
     if k == "cmp":
         return [t[1], t[3]]
-    if k == "not":
+    if k in ("not", "lookup"):
         return [t[1]]
     if k == "if":
         return [t[1], t[2], t[3]]
@@ -159,6 +163,8 @@ def rebuild(t, ch):
         return ["cmp", ch[0], t[2], ch[1]]
     if k == "not":
         return ["not", ch[0]]
+    if k == "lookup":
+        return ["lookup", ch[0], t[2]]
     if k == "if":
         return ["if", ch[0], ch[1], ch[2]]
     if k == "sub":
@@ -340,6 +346,13 @@ class Evaluator:
             agg = self.rec(t[1])
             idx = [self.rec(c) for c in t[2]]
             return self.subscript(agg, t[1], idx)
+        if k == "lookup":
+            v = self.rec(t[1])
+            if t[2] == "real":
+                return v
+            if t[2] == "imag":
+                return v * 0
+            raise EvalError("unknown attribute %s" % t[2])
         if k == "call":
             args = [self.rec(c) for c in t[2]]
             kw = t[3] if len(t) > 3 else {}
